@@ -19,7 +19,8 @@ from lib import gz, glist, gbool, gopt
 THEOREMS = ['C13_start_discipline', 'C13_one_start', 'C13_no_start_means_raise',
             'C13_clen', 'C13_read_bound', 'C13_asks_bound',
             'C13_too_long_declared', 'C13_user_means_fits', 'C13_too_long_undeclared',
-            'C13_too_long_unread_refuted', 'C13_close_discipline', 'C13_closed_once']
+            'C13_too_long_unread_refuted', 'C13_close_discipline', 'C13_closed_once',
+            'C13_iterator_refines', 'C13_closed_once_failing_close']
 
 IMPORTS = 'From SpyneV Require Import Base.Prelude Base.Digits C13.Model.'
 
@@ -365,6 +366,22 @@ def drive(case):
         w.event_manager.add_listener('wsdl', lambda ctx: setattr(ctx.transport, 'wsdl',
             ctx.transport.wsdl[:-case['wsdl_rewrite']] if case.get('wsdl_shrink') else ctx.transport.wsdl + pad))
     w.event_manager.add_listener('wsdl', lambda ctx: wsdl_sent.append(len(ctx.transport.wsdl)))
+    # a close callback that raises: a listener of wsgi_close (registered after the recording one), or a handle
+    # in ctx.files whose close() fails inside MethodContext.close (after method_context_closed has fired)
+    if case.get('close_fails') == 'listener':
+        def failing_close_listener(ctx):
+            raise RuntimeError('injected: a wsgi_close listener fails')
+        w.event_manager.add_listener('wsgi_close', failing_close_listener)
+    elif case.get('close_fails') == 'file':
+        class BadFile(object):
+            def close(self):
+                raise IOError('injected: a ctx.files handle fails to close')
+
+        def plant(ctx):
+            if not any(isinstance(f, BadFile) for f in ctx.files):
+                ctx.files.append(BadFile())
+        for evn in ('wsgi_return', 'wsgi_exception', 'wsdl', 'wsdl_exception'):
+            w.event_manager.add_listener(evn, plant)
     probe = Probe(w, case.get('inject'))
     body = case['body'] if isinstance(case['body'], bytes) else base64.b64decode(case['body'])
     inp = PlannedInput(body, case['caps'])
@@ -414,7 +431,11 @@ def drive(case):
                 site = '%s:%s' % (fr.filename.split(os.sep + 'spyne' + os.sep, 1)[1], fr.name)
         emit(('raise', type(e).__name__, site))
         if case['closes'] and 'it' in locals() and hasattr(it, 'close'):
-            it.close()
+            # what wsgiref's BaseHandler does: finally: result.close(), whatever happened before
+            try:
+                it.close()
+            except BaseException as e2:
+                emit(('raise', type(e2).__name__, 'second close()'))
     finally:
         if case.get('wsdl_fail'):
             try:
@@ -504,6 +525,9 @@ def scenario_term(case, obs):
         gbool(obs['is_wsdl']), ws, gopt(cl, lib.gtext), glist([gz(x) for x in obs['offers']]),
         gbool(p.consumed), stage(p.gen), stage(p.inp), user, ser, eser,
         gopt(case['take'], lambda k: '%d%%nat' % k), gbool(case['closes']))
+    if case.get('close_fails'):
+        return '(%s, %s, %s, %s)' % (c, r, {'listener': 'CFListener', 'file': 'CFFile'}[case['close_fails']],
+                                     glist(canon_trace(obs)))
     return '(%s, %s, %s)' % (c, r, glist(canon_trace(obs)))
 
 
@@ -819,6 +843,22 @@ def gen_cases(check):
                 L = len(req['body'])
                 take, closes = make_server(rng)
                 add(combo, kind, req, make_cfg(rng, L), str(L), [], take, closes, inject=inj)
+    # 5. the close callback raises (wsgi_close listener / ctx.files handle), for every response kind and server
+    #    behaviour; the servers that matter most iterate to the end and then call close() as PEP 3333 obliges
+    for combo in combos:
+        for kind in kinds_for(combo):
+            for how in ('listener', 'file'):
+                for take, closes in [(None, True), make_server(rng)] + ([] if quick else [make_server(rng) for _ in range(6)]):
+                    req = make_request(rng, combo, kind)
+                    L = len(req['body'])
+                    cfg = make_cfg(rng, L)
+                    cfg['mcl'] = max(cfg['mcl'], L) if rng.random() < 0.8 else cfg['mcl']
+                    add(combo, kind, req, cfg, rng.choice([None, str(L)]), make_caps(rng, L), take, closes, close_fails=how)
+    for combo in ('soap', 'http'):
+        for kind, kw in (('wsdl', {}), ('wsdl-fail', {'wsdl_fail': True})):
+            for take, closes in [(None, True), make_server(rng)]:
+                req = {'method': 'GET', 'path': '/', 'qs': 'wsdl', 'ctype': None, 'body': b''}
+                add(combo, kind, req, make_cfg(rng, 0), None, [], take, closes, close_fails='file', **kw)
     # 4. wsdl requests
     for combo in ('soap', 'http'):
         for path, qs in (('/', 'wsdl'), ('/app.wsdl', ''), ('/', 'WSDL=1'), ('/', 'wsdlx')):
@@ -844,21 +884,23 @@ def replayable(case):
 def describe(case):
     return '%s/%s cl=%r cfg=%s caps=%s take=%s closes=%s%s' % (
         case['combo'], case['kind'], case['cl'], (case['cfg']['chunked'], case['cfg']['mcl'], case['cfg']['bl']),
-        case['caps'], case['take'], case['closes'], ' inject=%s' % case['inject'] if case.get('inject') else '')
+        case['caps'], case['take'], case['closes'], (' inject=%s' % case['inject'] if case.get('inject') else '')
+        + (' close_fails=%s' % case['close_fails'] if case.get('close_fails') else ''))
 
 
-def run_case(check, case, coq_cases):
+def run_case(check, case, coq_cases, coq_cases_cf=None):
     # a wsdl document that is built once is cached on the WsgiApplication only, and we make a
     # fresh WsgiApplication per case; the interface document object of the Application caches
     # too, so the first wsdl request per application builds and later ones find it ready.
     obs = drive(case)
     key = (case['combo'], case['kind'], case['cl'], tuple(sorted(case['cfg'].items())), tuple(case['caps']),
-           case['take'], case['closes'], case.get('inject'), len(case['body']))
+           case['take'], case['closes'], case.get('inject'), len(case['body']), case.get('close_fails'))
     check.count(key)
     for k, what in oracle(check, case, obs):
         check.fail(k, what, {'case': replayable(case),
                              'observed': [list(map(str, e)) for e in obs['events']]})
-    coq_cases.append((scenario_term(case, obs), describe(case) + ' OBSERVED ' + '; '.join(canon_trace(obs))))
+    (coq_cases_cf if case.get('close_fails') else coq_cases).append(
+        (scenario_term(case, obs), describe(case) + ' OBSERVED ' + '; '.join(canon_trace(obs))))
     return obs
 
 
@@ -886,6 +928,9 @@ def run(check):
         'deciding expressions (limit comparison, loop condition, size of the next read, in-loop guard, end-of-stream '
         'test, after-loop test, lengths used for an empty / absent header) are translated to Gen/WsgiReader.v, which '
         'the model uses; exception classes, call targets, message texts, statement order and operators stay pinned',
+        'the same translator pins _ResponseIterator (private attribute names and locals alpha-renamed, docstrings and the '
+        'dead Python 2 alias next = __next__ dropped) and translates the statement order of its close() after the guard '
+        '(mark closed / run the callback) to ri_close_steps, which the statement-level iterator model serve_it interprets',
         'modelled, not verified: CPython int() on the CONTENT_LENGTH text (Base/Digits.int_of_text, ASCII digits), '
         'iterator/generator semantics of _ResponseIterator and of the body reader',
     ]
@@ -897,7 +942,8 @@ def run(check):
         'the request body is what CONTENT_LENGTH declares; with no CONTENT_LENGTH it is what the stream delivers',
         'C13_closed_once assumes a conforming server: it calls close() on the iterable or iterates it to the end',
         'not modelled: auxiliary method contexts (process_contexts with others), MTOM (apply_mtom), the push '
-        '(PushBase) interface, HttpRpc POST/form bodies (werkzeug absent), event listeners that raise',
+        '(PushBase) interface, HttpRpc POST/form bodies (werkzeug absent), event listeners that raise other than inside the '
+        'close callback (a failing wsgi_close listener and a ctx.files handle that fails to close ARE modelled: trace_cf)',
     ]
     check.regen(['wsgireader'])
     gen = os.path.join(lib.COQ, 'Gen', 'WsgiReader.v')
@@ -910,19 +956,28 @@ def run(check):
         check.broken.append(('translator', 'wsgireader',
                              'the body reader of spyne/server/wsgi.py does not have the statement structure the model '
                              'mirrors: %s' % (m.group(1) if m else 'Gen/WsgiReader.v missing')))
+    if 'Definition ri_shape_ok : bool := true.' not in text:
+        m = re.search(r'\(\* RI SHAPE MISMATCH: (.*?) \*\)', text, re.S)
+        check.broken.append(('translator', 'wsgireader/_ResponseIterator',
+                             '_ResponseIterator of spyne/server/wsgi.py does not have the statement structure the '
+                             'model mirrors: %s' % (m.group(1) if m else 'Gen/WsgiReader.v missing')))
     check.check_sources()
     check.prove('Props.C13', THEOREMS)
     cases = gen_cases(check)
     coq_cases = []
+    coq_cases_cf = []
     stats = {}
     for case in cases:
-        obs = run_case(check, case, coq_cases)
+        obs = run_case(check, case, coq_cases, coq_cases_cf)
         stats[case['combo'] + '/' + case['kind'].split('-')[0]] = stats.get(case['combo'] + '/' + case['kind'].split('-')[0], 0) + 1
         if len(check.samples) < 8 and check.rng.random() < 0.01:
             check.sample({'case': describe(case), 'trace': canon_trace(obs)})
     check.extra['case_mix'] = stats
     lib.correspond(check, 'wsgi_trace', IMPORTS, 'cfg * req * list ev', 'case_ok', coq_cases, shard=300,
                    show='(fun k : cfg * req * list ev => trace (fst (fst k)) (snd (fst k)))')
+    lib.correspond(check, 'wsgi_trace_failing_close', IMPORTS, 'cfg * req * cfail * list ev', 'case_cf_ok', coq_cases_cf,
+                   shard=300, show='(fun k : cfg * req * cfail * list ev => trace_cf (fst (fst (fst k))) '
+                                   '(snd (fst (fst k))) (snd (fst k)))')
     lib.flush_correspondences(check)
     return check.finish()
 
